@@ -230,6 +230,8 @@ def build(desc):
             w.func_uuid[fid] = u
             fb[u] = set(func_blocks.get(fid, ()))
             fe[u] = set(func_entries.get(fid, ()))
+            if f.get("nameless"):
+                continue
             fn[u] = syms[f["name"]]
             if fmt == gtirb.Module.FileFormat.ELF:
                 m.aux_data["elfSymbolInfo"].data[syms[f["name"]]] = (0, "FUNC", "GLOBAL", "DEFAULT", 0)
